@@ -24,7 +24,18 @@ FN_PROPS = TRAVERSAL + ("C11",)
 PROPS = FN_PROPS
 TREE = "src/iter/tree.rs"
 
-DROPPED = []
+DROPPED = [
+    "iter/tree.rs `impl Iterator for X { fn next }` are verified as inherent methods of X (`Self::Item` -> the concrete item type, R7): Verus does not allow `requires` on implementations of "
+    "std's Iterator::next, and the representation invariant is a precondition.  Adaptors of std::iter::Iterator (`.rev()`, `.zip()`, `.enumerate()` applied to the iterators by callers) are outside the unit",
+    "the provided trait methods pre_order_iter / verbose_pre_order_iter / post_order_iter / rtl_post_order_iter are lifted to free generic functions (R13: `self` -> `root`, `Self` -> `T`): "
+    "a contract inside the trait declaration cannot mention spec functions that are generic over the trait (cyclic definition in Verus); n_children / nth_child stay provided methods of the trait, verbatim",
+    "RtlPostOrderIter::next: `E.map(|mut item| BODY)` -> `match E { None => None, Some(mut item) => Some(BODY) }` (R14, BODY verbatim)",
+    "`for i in (0..n).rev() {` -> `for i in it: (0..n).rev() invariant .. {` (R10: ghost label + invariant only; Verus' native `for` over Rev<Range<usize>>, no index-loop rewrite)",
+    "#[derive(Clone, Debug)] on the iterator structs is dropped / trimmed (R1); `#[derive(Clone)]` of PreOrderIterItem is replaced by an external_body stand-in `clone` (field-wise clone, trusted)",
+    "trees are assumed to have at most usize::MAX nodes (precondition `count(root) <= usize::MAX` of the constructors; `self.index += 1` is then proved not to overflow). "
+    "A DAG shared through Arc is traversed as the tree it unfolds to (the doc comment's \"each node is only yielded once\" is not what the code does, nor what any caller relies on)",
+    "call-stack depth of the recursive PostOrderIter::next (= length of the leftmost spine below the expanded node) is not modelled",
+]
 
 # ------------------------------------------------------------------------------------------------
 # the stub trait: what an implementor of TreeLike promises (contracts of the three required methods)
@@ -448,8 +459,7 @@ POST_BEFORE_LOOP = """self.stack.push(current);
                 assert(abs_item(current) == GItem { elem: x, processed: true, ci: Seq::<int>::empty(), par });
                 assert(rev_skip(x.children(), n_children as int).map_values(|c: T| unproc(c, Some(current_stack_idx))) =~= Seq::<GItem<T>>::empty());
             }"""
-POST_LOOP_END_OLD = """                    Some(current_stack_idx),
-                ));
+POST_LOOP_END_OLD = """                ));
 """
 POST_LOOP_END_NEW = POST_LOOP_END_OLD + """                proof {
                     let k = it.index@;
@@ -1180,7 +1190,6 @@ def build(repo):
     # ---- (2) PreOrderIter ---------------------------------------------------------------------------
     vf.item(TREE, "struct:PreOrderIter", rewrites=[DERIVE_TRIM])
     vf.raw(PRE_INV)
-    vf.fn_text  # (placeholder to keep linters quiet)
     vf.fn(TREE, "trait:TreeLike/fn:pre_order_iter", props=FN_PROPS, rewrites=lift_self("pre_order_iter") + [lit("R10", "{ PreOrderIter {", "{ proof { lemma_pre_stack_single(root); } PreOrderIter {")],
           contract=Contract(ensures=[Clause("starts_with_whole_preorder", TRAVERSAL, "pre_stack(r.stack@) == preorder(root)")]))
     with vf.block("impl<T: TreeLike> PreOrderIter<T>"):
